@@ -200,13 +200,20 @@ def opFinish (ws : List String) : String :=
 section Num
 open Sqfs.Numbering
 
-/-- spec → forest; returns the rest of the input after a `)` or at the end -/
+/-- leading decimal digits of the input (none: 0) and the rest -/
+def takeNum : Nat → List Char → Nat × List Char
+  | acc, c :: r => if '0' ≤ c ∧ c ≤ '9' then takeNum (acc * 10 + (c.toNat - 48)) r else (acc, c :: r)
+  | acc, [] => (acc, [])
+
+/-- spec → forest; returns the rest of the input after a `)` or at the end.  `h<k>` = hard link to the `k`-th `f` -/
 def parseForest : Nat → List Char → Option (List Tree × List Char)
   | 0, _ => none
   | _ + 1, [] => some ([], [])
   | _ + 1, ')' :: r => some ([], ')' :: r)
   | f + 1, 'f' :: r => (parseForest f r).map (fun (ts, r') => (Tree.file :: ts, r'))
-  | f + 1, 'h' :: r => (parseForest f r).map (fun (ts, r') => (Tree.hlink :: ts, r'))
+  | f + 1, 'h' :: r =>
+    let (k, r1) := takeNum 0 r
+    (parseForest f r1).map (fun (ts, r') => (Tree.hlink k :: ts, r'))
   | f + 1, '(' :: r =>
     match parseForest f r with
     | some (cs, ')' :: r1) => (parseForest f r1).map (fun (ts, r') => (Tree.dir cs :: ts, r'))
@@ -216,7 +223,7 @@ def parseForest : Nat → List Char → Option (List Tree × List Char)
 mutual
 def showT : NTree → String
   | .file n => toString n
-  | .hlink => "-"
+  | .hlink _ => "-"
   | .dir n cs => "(" ++ showL cs ++ ")" ++ toString n
 def showL : List NTree → String
   | [] => ""
@@ -224,11 +231,24 @@ def showL : List NTree → String
   | t :: r => showT t ++ " " ++ showL r
 end
 
+mutual
+def maxLinkT : NTree → Nat
+  | .file _ => 0
+  | .hlink k => k + 1
+  | .dir _ cs => maxLinkL cs
+def maxLinkL : List NTree → Nat
+  | [] => 0
+  | t :: r => max (maxLinkT t) (maxLinkL r)
+end
+
+/-- `num`: `fstree_post_process` (DFS numbering, then `reorder_hard_links`): the tree with the final inode numbers -/
 def opNum (spec : String) : String :=
   match parseForest (spec.length + 2) spec.toList with
   | some (cs, []) =>
     let r := numberRoot cs
-    s!"{showT r.1} count={r.2}"
+    if maxLinkT r.1 > (filesT r.1).length then "bad-op" else
+    let arr := postProcess cs
+    s!"{showT (renumT arr r.1)} count={r.2}"
   | _ => "bad-op"
 
 end Num
@@ -299,7 +319,9 @@ def opStep (line : String) : String :=
   | ["blk", c, fl, h] => match codecByName c, fl.toNat?, fromHex h with
     | some c, some f, some d =>
       let r := processBlock c ⟨f, d⟩
-      s!"{r.flags} {toHexTok r.data}"
+      let w := completedWords r
+      let tok := fun (o : Option Nat) => match o with | some v => toString v | none => "-"
+      s!"{r.flags} {toHexTok r.data} iw={tok w.1} fw={tok w.2}"
     | _, _, _ => "bad-op"
   | "ids" :: ids => match ids.mapM String.toNat? with
     | some ids => opIds limit (ids.map (· % 4294967296)) false
